@@ -347,6 +347,32 @@ def unit_memory_init():
             path.prove(f"MemoryData.Init[{w},{s}]::row-wrapped", to_sint(init._raw[1]) == to_sint(norm(v, w, s)))
             path.prove(f"MemoryData.Init[{w},{s}]::others-zero", And(to_sint(init._raw[0]) == 0, to_sint(init._raw[2]) == 0))
         parts.append(Exploration(f"MemoryData.Init[{w},{s}]", body).run())
+    # rows written later -- by item assignment, slice assignment and extended slices -- are wrapped the same way, and
+    # both views of the rows (`init[i]` and the raw list the netlist builder and the simulator read) agree
+    for (w, s) in [(3, False), (3, True)]:
+        for how in ("item", "slice", "extended-slice"):
+            def body(path, w=w, s=s, how=how):
+                v1 = path.var("row_a", -(1 << (w + 2)), (1 << (w + 2)))
+                v2 = path.var("row_b", -(1 << (w + 2)), (1 << (w + 2)))
+                with shimmed(U, A, M):
+                    init = M.MemoryData.Init([5 & ((1 << w) - 1) if not s else -1] * 4, shape=A.Shape(w, s), depth=4)
+                    if how == "item":
+                        init[1] = v1
+                        init[3] = v2
+                        idx = (1, 3)
+                    elif how == "slice":
+                        init[1:3] = [v1, v2]
+                        idx = (1, 2)
+                    else:
+                        init[0::2] = [v1, v2]
+                        idx = (0, 2)
+                for k, v in zip(idx, (v1, v2)):
+                    path.prove(f"MemoryData.Init[{w},{s}]::{how}-assignment::row-wrapped", to_sint(init._raw[k]) == to_sint(norm(v, w, s)))
+                    path.prove(f"MemoryData.Init[{w},{s}]::{how}-assignment::views-agree", to_sint(init[k]) == to_sint(init._raw[k]))
+                others = [k for k in range(4) if k not in idx]
+                path.prove(f"MemoryData.Init[{w},{s}]::{how}-assignment::other-rows-untouched",
+                           And(*[to_sint(init._raw[k]) == (5 & ((1 << w) - 1) if not s else -1) for k in others]))
+            parts.append(Exploration(f"MemoryData.Init[{w},{s}]::{how}", body).run())
     for rg in (range(0, 10), range(-2, 3)):
         def body(path, rg=rg):
             sh = A.Shape.cast(rg)
